@@ -361,6 +361,11 @@ def classes_rules(prog, run, classes, rn, only=None):
                 if ok and alts:
                     ok = False
                     detail = f"{param} <- `{alts[0]} or <another value>`: a falsy limit set by the user (0, 0.0, False) never reaches the criterion, the fallback is used instead"
+                clamps = sorted(l[len("clamp:hc:"):] for l in labels(env.get(param)) if l.startswith("clamp:hc:"))
+                if ok and k in clamps:
+                    ok = None
+                    detail = (f"{param} <- hc['{k}'] limited by min / max / clip on the way: for the values inside the range it is the user's limit, whether the range admits every "
+                              f"legitimate limit (a variance limit in Hz^2, say, is not confined to [0, 1]) is not decided here")
                 run.ob(rn["bind"], runf.qual, f"hc['{k}'] -> {fq.split('.')[-1]}.{param}", ok,
                        detail, witness=f"{param}<-{sorted(ls)}{'|alt' if alts else ''}", file=f, node=node, config=cfg)
 
